@@ -23,6 +23,12 @@
  *            getptr(t) for every t of the domain; getmin in every state.
  * Bounds: quick N = 6, C = 4; thorough N = 12, C = 6 (K = 3) plus K = 4 keys /
  * 4 times {..,(1,5)} with N = 10, C = 5.
+ * --deep (given by ./check to the thorough tier only; the searches above are
+ * kept and these are added): see DEEPCFG below — K = 3 with N = 18 (heap,
+ * timer queue; C = 7) and N = 20 (heap without callback), K = 4 with N = 13
+ * (N = 15 without callback), K = 5 keys {0..4} with N = 11 (N = 12 without
+ * callback; heap only, the timer queue has 4 times).  N >= 16 adds the fifth
+ * level of the array (sift paths of depth 4).
  *
  * Canonical state: the key sequence in heap-array order (element identities
  * are interchangeable).  The state is restored by placing fresh elements
@@ -79,12 +85,12 @@ void verif_tq_at(struct timerqueue *, size_t, struct timeval *, void **, size_t 
 void * verif_tq_cookie_at(struct timerqueue *, size_t);
 void * verif_tq_place(struct timerqueue *, const struct timeval *, void *);
 
-#define MAXN 16
+#define MAXN 20
 #define NORC ((size_t)-7)
 
 /* ---------- search configuration ---------- */
 struct cfg { const char * kind; int cap, nkeys, cb, cmax; };	/* kind: "heap" | "tq" */
-static struct cfg CFGS[8]; static int NCFG;
+static struct cfg CFGS[16]; static int NCFG;
 static struct cfg cur;
 static struct esh S;
 static int replaying;		/* executing one edge verbosely */
@@ -513,7 +519,7 @@ do_replay(const char * js)
 	if (p == NULL || sscanf(p + 8, "%15s cap=%d nkeys=%d cb=%d cmax=%d state=%63s op=%u", kind, &cur.cap, &cur.nkeys, &cur.cb, &cur.cmax, hex, &op) != 7)
 		vf_engine_error("replay: cannot parse %s", js);
 	snprintf(kindbuf, sizeof(kindbuf), "%s", kind); cur.kind = kindbuf;
-	if (cur.cap > MAXN || cur.nkeys > 4) vf_engine_error("replay: bounds too large");
+	if (cur.cap > MAXN || cur.nkeys > (strcmp(kind, "heap") ? 4 : 5)) vf_engine_error("replay: bounds too large");
 	sl = strcmp(hex, "-") ? esh_unhex(hex, strlen(hex), st, sizeof(st)) : 0;
 	if (sl < 0) vf_engine_error("replay: bad state");
 	printf("replay %s search (cap %d, %d keys, callback %d): state %s, operation %s\n", cur.kind, cur.cap, cur.nkeys, cur.cb, hex, opname(op, nb, sizeof(nb)));
@@ -533,12 +539,31 @@ do_replay(const char * js)
 	return edge_failed ? 1 : 0;
 }
 
+/*
+ * --deep: searches beyond the thorough ones (which stay).  A replay needs no
+ * flag: every case record carries cap / nkeys / cb / cmax itself.
+ * create(n, c) is encoded in 12 bits, so nkeys^cmax must stay below 4096.
+ */
+static const struct cfg DEEPCFG[] = {
+	{"heap", 18, 3, 1, 7},
+	{"tq", 18, 3, 1, 0},
+	{"heap", 13, 4, 1, 5},
+	{"heap", 11, 5, 1, 5},
+	{"tq", 13, 4, 1, 0},
+	{"heap", 20, 3, 0, 7},
+	{"heap", 15, 4, 0, 5},
+	{"heap", 12, 5, 0, 5},
+};
+
 int
 main(int argc, char ** argv)
 {
-	int N, C;
+	int N, C, deep = 0, i;
 	vf_init(&argc, argv, "h_heap");
 	if (vf_replay) return do_replay(vf_replay);
+	for (i = 1; i < argc; i++) {
+		if (!strcmp(argv[i], "--deep")) deep = 1;	/* anything else is ignored, as before */
+	}
 	N = vf_tier ? 14 : 12; C = vf_tier ? 6 : 5;
 	CFGS[NCFG++] = (struct cfg){"heap", N, 3, 1, C};
 	CFGS[NCFG++] = (struct cfg){"heap", N, 3, 0, C};
@@ -547,14 +572,23 @@ main(int argc, char ** argv)
 		CFGS[NCFG++] = (struct cfg){"heap", 11, 4, 1, 5};
 		CFGS[NCFG++] = (struct cfg){"tq", 11, 4, 1, 0};
 	}
+	if (deep) for (i = 0; i < (int)(sizeof(DEEPCFG) / sizeof(DEEPCFG[0])); i++) CFGS[NCFG++] = DEEPCFG[i];
 	vf_info("bounds", "heap: keys {0,1,2}, <= %d elements, create from every array of <= %d keys, ops add/deletemin/delete(h)/increase(h)/decrease(h)/increasemin, with and without record-cookie callback; "
 	    "timer queue: times {(0,0),(0,5),(2^31+100,0)}, <= %d entries, ops add/delete(h)/increase(h)/getptr(t)/getmin%s; every search to its fixed point",
 	    N, C, N, vf_tier ? "; additionally 4 keys / 4 times with <= 11 elements, create from <= 5 keys" : "");
+	if (deep) {
+		char b[1200]; size_t o = 0;
+		for (i = 0; i < (int)(sizeof(DEEPCFG) / sizeof(DEEPCFG[0])); i++)
+			o += (size_t)snprintf(b + o, sizeof(b) - o, "%s%s%s: %d keys, <= %d %s%s", i ? "; " : "", DEEPCFG[i].kind, DEEPCFG[i].cb ? "" : " without callback", DEEPCFG[i].nkeys, DEEPCFG[i].cap,
+			    strcmp(DEEPCFG[i].kind, "heap") ? "entries" : "elements", "");
+		vf_info("deep_bounds", "additional searches, same operations and oracle, each to its fixed point: %s; heap searches start from init and from create of every array of <= 7 (3 keys) / <= 5 (4, 5 keys) keys", b);
+	}
 	vf_parallel((uint64_t)NCFG, run_search);
 	/* non-vacuity: the searches must have reached full heaps */
 	if (!vf_deadline_hit() && vf_nviolations() == 0 && vf_getcount("crashed_units") == 0) {
 		char key[64]; snprintf(key, sizeof(key), "heap.k3.n%d.states", N);
 		if (vf_getcount(key) < 100) vf_engine_error("heap search found only %llu states", (unsigned long long)vf_getcount(key));
+		if (deep && vf_getcount("heap.k3.n18.states") < 600000) vf_engine_error("deep heap search found only %llu states", (unsigned long long)vf_getcount("heap.k3.n18.states"));
 	}
 	return vf_finish();
 }
